@@ -97,6 +97,10 @@ pub struct PendingInfo {
 
 pub struct Pending {
     since_ms: [AtomicU64; MAX_WORKERS],
+    /// incremented at every begin: identifies one pending batch
+    seq: [AtomicU64; MAX_WORKERS],
+    /// kernel thread id of the worker that owns the slot right now
+    tid: [AtomicU64; MAX_WORKERS],
     what: [Mutex<Option<PendingInfo>>; MAX_WORKERS],
     epoch: Instant,
 }
@@ -106,6 +110,8 @@ static PENDING: std::sync::OnceLock<Pending> = std::sync::OnceLock::new();
 fn pending() -> &'static Pending {
     PENDING.get_or_init(|| Pending {
         since_ms: std::array::from_fn(|_| AtomicU64::new(0)),
+        seq: std::array::from_fn(|_| AtomicU64::new(0)),
+        tid: std::array::from_fn(|_| AtomicU64::new(0)),
         what: std::array::from_fn(|_| Mutex::new(None)),
         epoch: Instant::now(),
     })
@@ -113,6 +119,29 @@ fn pending() -> &'static Pending {
 
 thread_local! {
     static CUR_WORKER: std::cell::Cell<usize> = const { std::cell::Cell::new(usize::MAX) };
+    static MY_TID: std::cell::Cell<u64> = const { std::cell::Cell::new(0) };
+}
+
+fn my_tid() -> u64 {
+    MY_TID.with(|t| {
+        if t.get() == 0 {
+            t.set(unsafe { libc::syscall(libc::SYS_gettid) } as u64);
+        }
+        t.get()
+    })
+}
+
+/// CPU time (user + system, in seconds) consumed so far by the thread `tid` of this process;
+/// None if the thread does not exist any more
+fn thread_cpu_s(tid: u64) -> Option<f64> {
+    let s = std::fs::read_to_string(format!("/proc/self/task/{tid}/stat")).ok()?;
+    // fields after the last ')' : state is field 3, utime 14, stime 15
+    let rest = &s[s.rfind(')')? + 2..];
+    let f: Vec<&str> = rest.split_whitespace().collect();
+    let ut: f64 = f.get(11)?.parse().ok()?;
+    let st: f64 = f.get(12)?.parse().ok()?;
+    let hz = unsafe { libc::sysconf(libc::_SC_CLK_TCK) } as f64;
+    Some((ut + st) / if hz > 0.0 { hz } else { 100.0 })
 }
 
 type StallFn = Box<dyn Fn(Option<PendingInfo>, &'static str) + Send + Sync>;
@@ -152,26 +181,50 @@ pub fn install_crash_handler(on_crash: impl Fn(Option<PendingInfo>, &'static str
 pub fn pending_begin(w: usize, what: PendingInfo) {
     CUR_WORKER.with(|c| c.set(w));
     let p = pending();
-    *p.what[w % MAX_WORKERS].lock().unwrap() = Some(what);
-    p.since_ms[w % MAX_WORKERS].store(p.epoch.elapsed().as_millis() as u64 + 1, Ordering::SeqCst);
+    let i = w % MAX_WORKERS;
+    *p.what[i].lock().unwrap() = Some(what);
+    p.tid[i].store(my_tid(), Ordering::SeqCst);
+    p.seq[i].fetch_add(1, Ordering::SeqCst);
+    p.since_ms[i].store(p.epoch.elapsed().as_millis() as u64 + 1, Ordering::SeqCst);
 }
 
 pub fn pending_end(w: usize) {
     pending().since_ms[w % MAX_WORKERS].store(0, Ordering::SeqCst);
 }
 
-/// Start the watchdog thread: if a call batch is pending for more than `limit`, call `on_stall`
-/// with its description (which is expected to report and exit the process).
+/// Start the watchdog thread. A batch of library calls counts as diverging when it has been
+/// pending for more than 5 s of wall time AND the thread that executes it has since burnt more than
+/// `limit` of CPU time. (Wall time alone is not used: on an oversubscribed or memory-starved machine
+/// a healthy thread can be off the CPU for a long time, and that must never become a verdict.)
 pub fn start_watchdog(limit: Duration, on_stall: impl Fn(PendingInfo) + Send + 'static) {
     let p = pending();
-    std::thread::spawn(move || loop {
-        std::thread::sleep(Duration::from_millis(500));
-        let now = p.epoch.elapsed().as_millis() as u64 + 1;
-        for w in 0..MAX_WORKERS {
-            let s = p.since_ms[w].load(Ordering::SeqCst);
-            if s != 0 && now.saturating_sub(s) > limit.as_millis() as u64 {
-                if let Some(what) = p.what[w].lock().unwrap().clone() {
-                    on_stall(what);
+    std::thread::spawn(move || {
+        // per slot: (sequence number under observation, cpu seconds when the observation started)
+        let mut watch: Vec<Option<(u64, f64)>> = vec![None; MAX_WORKERS];
+        loop {
+            std::thread::sleep(Duration::from_millis(1000));
+            let now = p.epoch.elapsed().as_millis() as u64 + 1;
+            for w in 0..MAX_WORKERS {
+                let s = p.since_ms[w].load(Ordering::SeqCst);
+                if s == 0 || now.saturating_sub(s) < 5000 {
+                    watch[w] = None;
+                    continue;
+                }
+                let seq = p.seq[w].load(Ordering::SeqCst);
+                let tid = p.tid[w].load(Ordering::SeqCst);
+                let Some(cpu) = thread_cpu_s(tid) else {
+                    watch[w] = None;
+                    continue;
+                };
+                match watch[w] {
+                    Some((q, cpu0)) if q == seq => {
+                        if cpu - cpu0 > limit.as_secs_f64() && p.seq[w].load(Ordering::SeqCst) == seq && p.since_ms[w].load(Ordering::SeqCst) == s {
+                            if let Some(what) = p.what[w].lock().unwrap().clone() {
+                                on_stall(what);
+                            }
+                        }
+                    }
+                    _ => watch[w] = Some((seq, cpu)),
                 }
             }
         }
